@@ -69,8 +69,15 @@ fn shapes() -> Vec<(String, Value)> {
         {"endpointName": "list", "httpMethod": "GET", "httpPath": "/list/{prefix:.*}", "args": [{"argName": "prefix", "type": prim("STRING"), "paramType": {"type": "path", "path": {}}, "markers": [], "tags": []}], "returns": list(prim("STRING")), "markers": [], "tags": []},
         {"endpointName": "put", "httpMethod": "PUT", "httpPath": "/b/{bucket}/o/{type:[a-z]+}/{rest:.+}", "args": [{"argName": "bucket", "type": prim("RID"), "paramType": {"type": "path", "path": {}}, "markers": [], "tags": []}, {"argName": "type", "type": prim("STRING"), "paramType": {"type": "path", "path": {}}, "markers": [], "tags": []}, {"argName": "rest", "type": prim("STRING"), "paramType": {"type": "path", "path": {}}, "markers": [], "tags": []}, {"argName": "body", "type": prim("BINARY"), "paramType": {"type": "body", "body": {}}, "markers": [], "tags": []}], "markers": [], "tags": []}
     ]})], vec![])));
+    // "types spread over nested packages": a type and a sub-package of its package whose module names coincide (the
+    // type `Inner` lives in module `inner`, the package `….inner` is module `inner` too), and two types of one
+    // package whose names differ only in how they are cased
+    v.push(("type-and-subpackage-share-a-module-name".to_string(), ir(vec![
+        obj("Inner", vec![("leaf", opt(json!({"type": "reference", "reference": {"name": "Leaf", "package": "com.palantir.shapes.inner"}})))]),
+        json!({"type": "object", "object": {"typeName": {"name": "Leaf", "package": "com.palantir.shapes.inner"}, "fields": [{"fieldName": "x", "type": prim("INTEGER")}]}}),
+    ], vec![], vec![])));
     // one object per keyword-like field name (so that a failure names the keyword)
-    for kw in ["as", "async", "await", "break", "const", "continue", "crate", "dyn", "else", "enum", "extern", "false", "fn", "for", "if", "impl", "in", "let", "loop", "match", "mod", "move", "mut", "pub", "ref", "return", "self", "static", "struct", "super", "trait", "true", "type", "unsafe", "use", "where", "while", "abstract", "become", "box", "do", "final", "macro", "override", "priv", "try", "typeof", "unsized", "virtual", "yield", "union", "builder", "build", "new", "default", "clone", "from", "into"] {
+    for kw in ["as", "async", "await", "break", "const", "continue", "crate", "dyn", "else", "enum", "extern", "false", "fn", "for", "if", "impl", "in", "let", "loop", "match", "mod", "move", "mut", "pub", "ref", "return", "self", "static", "struct", "super", "trait", "true", "type", "unsafe", "use", "where", "while", "abstract", "become", "box", "do", "final", "macro", "override", "priv", "try", "typeof", "unsized", "virtual", "yield", "gen", "union", "builder", "build", "new", "default", "clone", "from", "into"] {
         v.push((format!("field-named:{}", kw), ir(vec![obj("KwObject", vec![(kw, prim("STRING")), ("other", opt(prim("INTEGER")))]), obj("KwOptObject", vec![("first", prim("BOOLEAN")), (kw, opt(prim("STRING")))]), obj("KwListObject", vec![(kw, list(prim("DOUBLE")))]), uni("KwUnion", vec![(kw, prim("DOUBLE"))])], vec![], vec![])));
     }
     v
@@ -93,6 +100,114 @@ fn field_idents(tree: &BTreeMap<String, String>) -> Result<Vec<(String, Vec<Stri
         }
     }
     Ok(out)
+}
+
+
+/// which references the generated objects and unions hold behind a `Box`, read back from the emitted types, against
+/// Model/Boxing.lean on the same definitions
+fn boxing_case(cs: &mut Cases, class: &str, name: &str, ir: &Value, tree: &BTreeMap<String, String>) {
+    let types = match ir["types"].as_array() {
+        Some(t) if !t.is_empty() => t,
+        _ => return,
+    };
+    let key = |tn: &Value| format!("{}.{}", tn["package"].as_str().unwrap_or(""), tn["name"].as_str().unwrap_or(""));
+    let index: BTreeMap<String, usize> = types.iter().enumerate().map(|(i, t)| (key(&t[t["type"].as_str().unwrap()]["typeName"]), i)).collect();
+    fn conv(t: &Value, index: &BTreeMap<String, usize>, key: &dyn Fn(&Value) -> String) -> (String, bool) {
+        // (model text, ends in a reference outside collections)
+        match t["type"].as_str().unwrap_or("") {
+            "primitive" => ("p".into(), false),
+            "list" | "set" | "map" => ("c".into(), false),
+            "optional" => {
+                let (x, r) = conv(&t["optional"]["itemType"], index, key);
+                (format!("(opt,{})", x), r)
+            }
+            "reference" => (format!("(r,{})", index.get(&key(&t["reference"])).copied().unwrap_or(9999)), true),
+            "external" => {
+                let (x, r) = conv(&t["external"]["fallback"], index, key);
+                (format!("(x,{})", x), r)
+            }
+            _ => ("p".into(), false),
+        }
+    }
+    // every struct / enum of the emitted tree by name
+    let mut structs: BTreeMap<String, Vec<syn::Type>> = BTreeMap::new();
+    let mut enums: BTreeMap<String, Vec<Option<syn::Type>>> = BTreeMap::new();
+    for text in tree.values() {
+        if let Ok(file) = syn::parse_file(text) {
+            for item in &file.items {
+                match item {
+                    syn::Item::Struct(st) => {
+                        if let syn::Fields::Named(n) = &st.fields {
+                            structs.entry(st.ident.to_string()).or_insert_with(|| n.named.iter().map(|f| f.ty.clone()).collect());
+                        }
+                    }
+                    syn::Item::Enum(e) => {
+                        enums.entry(e.ident.to_string()).or_insert_with(|| e.variants.iter().map(|v| match &v.fields {
+                            syn::Fields::Unnamed(u) if u.unnamed.len() == 1 => Some(u.unnamed[0].ty.clone()),
+                            _ => None,
+                        }).collect());
+                    }
+                    _ => {}
+                }
+            }
+        }
+    }
+    fn boxed(ty: &syn::Type) -> bool {
+        if let syn::Type::Path(p) = ty {
+            if let Some(seg) = p.path.segments.last() {
+                if seg.ident == "Option" {
+                    if let syn::PathArguments::AngleBracketed(a) = &seg.arguments {
+                        if let Some(syn::GenericArgument::Type(inner)) = a.args.first() {
+                            return boxed(inner);
+                        }
+                    }
+                }
+                return seg.ident == "Box";
+            }
+        }
+        false
+    }
+    let mut defs = String::from("(defs");
+    let mut real: Vec<String> = vec![];
+    let mut any_ref = false;
+    for t in types {
+        let k = t["type"].as_str().unwrap();
+        let rust_name = {
+            let n = t[k]["typeName"]["name"].as_str().unwrap().to_upper_camel_case();
+            if n == "Self" { "Self_".to_string() } else { n }
+        };
+        match k {
+            "alias" => {
+                defs.push_str(&format!(",(a,{})", conv(&t["alias"]["alias"], &index, &key).0));
+                real.push("a".into());
+            }
+            "enum" => {
+                defs.push_str(",(e)");
+                real.push("e".into());
+            }
+            "object" | "union" => {
+                let fields = if k == "object" { t["object"]["fields"].as_array().unwrap() } else { t["union"]["union"].as_array().unwrap() };
+                let convs: Vec<(String, bool)> = fields.iter().map(|f| conv(&f["type"], &index, &key)).collect();
+                defs.push_str(&format!(",({}{})", if k == "object" { "o" } else { "u" }, convs.iter().map(|c| format!(",{}", c.0)).collect::<String>()));
+                let tys: Vec<Option<syn::Type>> = if k == "object" { structs.get(&rust_name).map(|v| v.iter().cloned().map(Some).collect()).unwrap_or_default() } else { enums.get(&rust_name).cloned().unwrap_or_default() };
+                let flags: Vec<String> = convs.iter().enumerate().map(|(i, (_, is_ref))| {
+                    if !*is_ref {
+                        "-".to_string()
+                    } else {
+                        any_ref = true;
+                        match tys.get(i) {
+                            Some(Some(ty)) => if boxed(ty) { "1".to_string() } else { "0".to_string() },
+                            _ => "?".to_string(),
+                        }
+                    }
+                }).collect();
+                real.push(format!("{}:{}", if k == "object" { "o" } else { "u" }, flags.join(",")));
+            }
+            _ => return,
+        }
+    }
+    defs.push(')');
+    cs.push(class, format!("boxing {}", defs), real.join(";"), any_ref, format!("which references the types generated for {} hold behind a Box", name));
 }
 
 fn interesting(ir: &Value) -> bool {
@@ -118,11 +233,56 @@ pub fn cases(seed: u64, tier: Tier) -> Cases {
         docs.push((format!("seeded#{}", i), ir, GenCfg { exhaustive: rng.chance(1, 2), serialize_empty_collections: rng.chance(1, 2), strip_prefix: strip, build_crate: None }));
     }
 
+    // how generated code names a type of another package: an object in one package with a field of an enum type in
+    // another, for a spread of package pairs and prefixes; the path written for the field against Model/TypePath.lean
+    // (the documents join the corpus below, so rustc resolves every one of these paths as well)
+    for (strip, this, other) in [
+        (None, "com.a", "com.a"), (None, "com.a.b", "com.a"), (None, "com.a", "com.a.b.c"), (None, "a", "b"), (None, "com.a.b.c.d", "com.a.x.y"),
+        (Some("com.a"), "com.a.x", "com.a.y.z"), (Some("com.a"), "com.a", "com.a.y"), (Some("com.a"), "org.b", "com.a.y"), (Some("com.a"), "com.a.y", "org.b.c"),
+        (Some("com.a.x"), "com.a.x", "com.a"), (Some("com"), "com.p.q", "com.p.q.r.s"), (Some("com.a"), "com.ab.c", "com.a.c"),
+    ] {
+        let ir = json!({"version": 1, "errors": [], "services": [], "extensions": {}, "types": [
+            {"type": "enum", "enum": {"typeName": {"name": "Kind", "package": other}, "values": [{"value": "A"}, {"value": "B"}]}},
+            {"type": "object", "object": {"typeName": {"name": "Holder", "package": this}, "fields": [
+                {"fieldName": "kind", "type": {"type": "reference", "reference": {"name": "Kind", "package": other}}},
+                {"fieldName": "kinds", "type": {"type": "map", "map": {"keyType": {"type": "reference", "reference": {"name": "Kind", "package": other}}, "valueType": {"type": "optional", "optional": {"itemType": {"type": "reference", "reference": {"name": "Holder", "package": this}}}}}}}]}}]});
+        let cfg = GenCfg { exhaustive: false, serialize_empty_collections: false, strip_prefix: strip.map(|s: &str| s.to_string()), build_crate: None };
+        let op = format!("typepath {} {} {} Kind", strip.unwrap_or("-"), this, other);
+        let note = format!("the type of field `kind: Kind` ({}) in object Holder ({}), stripPrefix {:?}", other, this, strip);
+        let real = match irgen::generate(&ir, &cfg) {
+            Err(e) => format!("generation failed: {}", e.lines().next().unwrap_or("")),
+            Ok(tree) => {
+                let mut found = "no struct Holder with a field `kind`".to_string();
+                for text in tree.values() {
+                    if let Ok(file) = syn::parse_file(text) {
+                        for item in &file.items {
+                            if let syn::Item::Struct(st) = item {
+                                if st.ident == "Holder" {
+                                    if let syn::Fields::Named(n) = &st.fields {
+                                        for f in &n.named {
+                                            if f.ident.as_ref().map(|i| i == "kind").unwrap_or(false) {
+                                                let ty = &f.ty;
+                                                found = quote::quote!(#ty).to_string().replace(' ', "");
+                                            }
+                                        }
+                                    }
+                                }
+                            }
+                        }
+                    }
+                }
+                found
+            }
+        };
+        cs.push("type-path", op, real, this != other, note);
+        docs.push((format!("type-path:{}->{} strip {:?}", this, other, strip), ir, cfg));
+    }
+
     // (1) + (2): generate; compare identifiers
     let mut compiled: Vec<(usize, BTreeMap<String, String>)> = vec![];
     let mut case_of_doc: Vec<usize> = vec![];
     for (k, (name, ir, cfg)) in docs.iter().enumerate() {
-        let class = if name.starts_with("seeded") { "seeded" } else if name.starts_with("field-named") { "keyword-field" } else { "changelog-shape" };
+        let class = if name.starts_with("seeded") { "seeded" } else if name.starts_with("field-named") { "keyword-field" } else if name.starts_with("type-path") { "type-path" } else { "changelog-shape" };
         let ir_txt = serde_json::to_string(ir).unwrap();
         match irgen::generate(ir, cfg) {
             Err(e) => {
@@ -160,6 +320,7 @@ pub fn cases(seed: u64, tier: Tier) -> Cases {
                         }
                     }
                 }
+                boxing_case(&mut cs, class, name, ir, &tree);
                 case_of_doc.push(cs.cases.len() - 1);
                 compiled.push((k, tree));
             }
@@ -214,7 +375,7 @@ pub fn cases(seed: u64, tier: Tier) -> Cases {
             }
             for (d, errs) in by_doc {
                 let (name, ir, cfg) = &docs[d];
-                let class = if name.starts_with("seeded") { "seeded" } else if name.starts_with("field-named") { "keyword-field" } else { "changelog-shape" };
+                let class = if name.starts_with("seeded") { "seeded" } else if name.starts_with("field-named") { "keyword-field" } else if name.starts_with("type-path") { "type-path" } else { "changelog-shape" };
                 cs.push(class, "noop".into(), "noop".into(), true, format!("rustc on the output for {} {:?}", name, cfg));
                 let key = if name.starts_with("field-named:") { format!("does-not-compile:{}", name) } else { format!("does-not-compile:{}", errs[0].split(' ').next().unwrap_or("")) };
                 cs.fail_last(&key, format!("the code generated for {} under {:?} does not compile: {} — IR {}", name, cfg, errs.iter().take(3).cloned().collect::<Vec<_>>().join(" | "), serde_json::to_string(ir).unwrap().chars().take(1500).collect::<String>()));
@@ -234,7 +395,7 @@ fn crate_mode(cs: &mut Cases, rng: &mut Rng, tier: Tier) {
     let pkg = "com.palantir.crates";
     let tn = |n: &str| json!({"name": n, "package": pkg});
     let prim = |p: &str| json!({"type": "primitive", "primitive": p});
-    let types = vec![json!({"type": "object", "object": {"typeName": tn("Thing"), "fields": [{"fieldName": "id", "type": prim("UUID")}, {"fieldName": "weights", "type": {"type": "list", "list": {"itemType": prim("DOUBLE")}}}]}}), json!({"type": "enum", "enum": {"typeName": tn("Colour"), "values": [{"value": "RED"}]}})];
+    let types = vec![json!({"type": "object", "object": {"typeName": tn("Thing"), "fields": [{"fieldName": "id", "type": prim("UUID")}, {"fieldName": "gen", "type": prim("INTEGER")}, {"fieldName": "weights", "type": {"type": "list", "list": {"itemType": prim("DOUBLE")}}}]}}), json!({"type": "enum", "enum": {"typeName": tn("Colour"), "values": [{"value": "RED"}]}})];
     let errors = vec![json!({"errorName": tn("ThingMissing"), "namespace": "Crates", "code": "NOT_FOUND", "safeArgs": [{"fieldName": "id", "type": prim("UUID")}], "unsafeArgs": [{"fieldName": "why", "type": {"type": "optional", "optional": {"itemType": prim("STRING")}}}]})];
     let services = vec![json!({"serviceName": tn("ThingService"), "endpoints": [{"endpointName": "count", "httpMethod": "GET", "httpPath": "/things/{kind}", "args": [{"argName": "kind", "type": prim("STRING"), "paramType": {"type": "path", "path": {}}, "markers": [], "tags": []}], "returns": prim("INTEGER"), "markers": [], "tags": []}]})];
     let mut docs: Vec<(String, Value, GenCfg)> = vec![];
